@@ -72,7 +72,7 @@ func solveAll(obls []*Obligation, timeoutS int, all bool, seed int) []SolveResul
 			}
 			if o.ExpectSat && o.Label == "return" {
 				// reachability witness: only a quick definite answer is of interest
-				res[i] = Solve(o.Query(seed), 3, false, nil)
+				res[i] = SolveQuick(o.RelaxedQuery(seed), 2)
 				return
 			}
 			res[i] = Solve(o.Query(seed), timeoutS, all, o.Probes)
@@ -163,6 +163,10 @@ func cmdVerify(args []string) int {
 				}
 				if !ok && r.Status == "error" {
 					fmt.Println("      ", firstLines(r.Raw, 3))
+				}
+				if dump && strings.Contains(o.Name, os.Getenv("GOVC_DUMP_NAME")) && os.Getenv("GOVC_DUMP_NAME") != "" {
+					os.WriteFile(fmt.Sprintf("/tmp/govc-named-%d.smt2", i), []byte(o.Query(0)), 0o644)
+					os.WriteFile(fmt.Sprintf("/tmp/govc-named-%d.sliced.smt2", i), []byte(o.SlicedQuery(0)), 0o644)
 				}
 				if !ok && dump {
 					os.WriteFile(fmt.Sprintf("/tmp/govc-fail-%d.smt2", i), []byte(o.Query(0)), 0o644)
